@@ -126,6 +126,9 @@ func verifHistory(r *vrand.Rand) (steps []verifStep, mode string, wrap, nsJitter
 	if r.Chance(1, 3) {
 		n = r.Range(2, 30)
 	}
+	if r.Chance(1, 4000) {
+		n = 70000 // a meter that has been sampling for a week: state after 2^16 samples
+	}
 	var c uint64
 	switch {
 	case wrap:
@@ -316,6 +319,9 @@ func TestVerif_C20_Windows(t *testing.T) {
 		}()
 		r := m.Rand("history", idx)
 		steps, mode, wrap, nsJitter := verifHistory(r)
+		if len(steps) >= 70000 {
+			m.Count("histories_of_70000_observations", 1)
+		}
 		mt := verifNewMeter(r.Bool())
 		base := time.Unix(int64(r.PickU64(0, 10, 1700000000, 4102444800)), 0)
 		startAt := r.Intn(3) // the meter is "started" before this step; earlier steps verify the refusal
